@@ -2890,6 +2890,17 @@ class Evaluator:
         if tv is not None: root, idx = ast.Name(id=tv[0], ctx=ast.Load()), tv[1]
         try: cur = s.lookup(root.id, env, mod)
         except Exception: return False
+        if isinstance(cur, Cond) and s._build is None and all(_is_arraylike(l_) for _, l_ in paths_of(cur)):
+            # the array was written on one path of an earlier test only: the store goes into the array of either path
+            pc_ = s._pc
+            guard_ = s.mkbool('and', [g if pol else s.negate(g) for g, pol in pc_]) if s._undecided else True
+            rec_ = Opq('st', (), guard_, tuple(idx), val, bool(aug))
+            def put(x):
+                if isinstance(x, Cond): return Cond(x.g, put(x.a), put(x.b))
+                base_, recs_ = (x.k[1], list(x.k[2])) if (isinstance(x, Opq) and x.k[0] == 'build') else (x, [])
+                return Opq('build', base_, tuple(recs_ + [rec_]))
+            s.rebind(root.id, put(cur), env)
+            return True
         if not _is_arraylike(cur): return False
         b = s._build
         pc = s._pc[b['pc0']:] if b is not None else []
